@@ -171,6 +171,30 @@ func TestC03(t *testing.T) {
 		}
 		r.LabelN("exhaustive:leaves", int64(leaves))
 	}
+	// ---------------- chunks at the 16-bit limit: a 70 000-character string and a 70 000-octet
+	// binary need at least two chunks, the first of 65 535 units
+	if shard == 0 {
+		for _, v := range []interface{}{
+			&zoo.StrCarrier{S: mkString(0, 70000, 0, 0, 5), L: []string{"after"}},
+			&zoo.StrCarrier{S: mkString(2, 66000, 0, 0, 6), MK: map[string]int32{"k": 1}},
+			&zoo.BinCarrier{B: mkBytes(70000, 7), L: [][]byte{{1, 2}}},
+		} {
+			tm, nm := hessian.ExtractTypeNameMap(v)
+			for _, in := range [][]int{nil, {0, 0, 0, 0, 1, 3}, {0, 0, 0, 0, 3, 100, 60000, 2}} {
+				rc := &refcodec.Recorded{In: in}
+				refBytes, _, skipped, failure, harness := c03One(v, rc, c03Opt(compact, false, 0), tm, nm)
+				if harness != "" {
+					harnessBug(t, "C03", "%s (64 KiB chunk case)", harness)
+				}
+				if skipped == "" && failure != "" {
+					directFail(t, "C03", map[string]interface{}{"value": zoo.Describe(v, 100), "choices": fmt.Sprint(rc.Taken)}, "C03 %T with a 65 535-unit chunk, choices %v: %s (%d octets)", v, labelled(rc), failure, len(refBytes))
+				}
+				r.Eval()
+				r.NonTrivial(av.Hash(fmt.Sprintf("64k/%T/%v", v, in)))
+			}
+		}
+		r.Label("chunks-at-16-bit-limit")
+	}
 	// ---------------- random values x random choices
 	cfg := zoo.DefaultCfg()
 	cfg.MaxBig, cfg.Budget, cfg.NoBigStrings = 40, 200, true
